@@ -506,10 +506,36 @@ func (g *docGen) str(keys bool) {
 				g.buf.WriteString(g.pick("strbad", strBad))
 				continue
 			}
+			if g.coin("uescape", 4) {
+				g.uEscape()
+				continue
+			}
 			g.buf.WriteString(g.pick("piece", strOK))
 		}
 	}
 	g.buf.WriteByte('"')
+}
+
+// hex digits at both ends of each of the three ranges, and the characters just outside them
+var hexOK = []string{"0", "9", "a", "f", "A", "F", "1", "8", "b", "e", "B", "E", "5", "c", "D"}
+var hexBad = []string{"/", ":", "`", "g", "@", "G", " ", "-", "x"}
+
+// uEscape writes a \uXXXX escape whose four digits are drawn per position (sometimes one of them is
+// a character adjacent to a hex range, which makes the document invalid).
+func (g *docGen) uEscape() {
+	badAt := -1
+	if g.bad > 0 && g.coin("baduescape", 5) {
+		g.bad--
+		badAt = rapid.IntRange(0, 3).Draw(g.t, g.label+"badhexat")
+	}
+	g.buf.WriteString(`\u`)
+	for i := 0; i < 4; i++ {
+		if i == badAt {
+			g.buf.WriteString(g.pick("hexbad", hexBad))
+			continue
+		}
+		g.buf.WriteString(g.pick("hex", hexOK))
+	}
 }
 
 func (g *docGen) num() {
